@@ -390,6 +390,9 @@ int sim_main_run(const Plan &plan) {
   init_lpc_compiler(CONFIG_INT(__MAX_LOCAL_VARIABLES__), CONFIG_STR(__INCLUDE_DIRS__));
   setup_simulate();
   verif_instr_hook = instr_hook;
+  files_reset();
+  S.fs_log = plan.optl("fs_log", 0) != 0;
+  S.fs_active = true;
 
   eval_cost = CONFIG_INT(__MAX_EVAL_COST__);
   {
@@ -398,6 +401,7 @@ int sim_main_run(const Plan &plan) {
     if (setjmp(econ.context)) {
       restore_context(&econ);
       pop_context(&econ);
+      S.fs_active = false;
       ev("boot_fail mudlib_error");
       ev_flush();
       rm_tree(S.root);
@@ -419,6 +423,7 @@ int sim_main_run(const Plan &plan) {
   }
   dump_users("final");
   kernel_dump_conns();
+  S.fs_active = false;
   ev("backend_returned cycles=%ld instr=%ld faults=%ld timer_fires=%ld", S.cycle, S.instr_total, S.faults_fired, S.timer_fires);
   std::string st;
   for (auto &kv : S.stats) { st += " " + kv.first + "=" + std::to_string(kv.second); }
